@@ -430,6 +430,19 @@ func exercise(ctx context.Context, rq *Req, rt wazero.Runtime, cm wazero.Compile
 			return
 		}
 	}
+	// A guest parked in memory.atomic.wait (timeout -1, nobody to notify) cannot be bounded by the call context:
+	// MemoryInstance.wait listens to neither (finding F49, decided under C07).  That is not a statement about the
+	// validator, so such modules are compiled on both engines but not run here.  The byte scan may also hit an
+	// immediate that happens to read fe 01/02; the only cost is a skipped exercise.
+	for i := range dm.CodeSection {
+		b := dm.CodeSection[i].Body
+		for k := 0; k+1 < len(b); k++ {
+			if b[k] == wasm.OpcodeAtomicPrefix && (b[k+1] == wasm.OpcodeAtomicMemoryWait32 || b[k+1] == wasm.OpcodeAtomicMemoryWait64) {
+				er.Inst = "skip:may-block-in-atomic-wait"
+				return
+			}
+		}
+	}
 	if why := provide(ctx, rt, dm, rq.Rot%3 == 0); why != "" {
 		er.Inst = "skip:" + why
 		return
